@@ -64,12 +64,11 @@ def check_pose(ctx, it, df, nterm, label, m, fn, samplers):
             node = last_store(it, df, "shift_" + c) or fn
             ctx.finding(Q, node, f"{label}: the complete position {c}+shift_{c} of subunit k must be the parent's centre plus "
                         f"component {i} of R*Rz(k*360/n)*s", node, m, witness=v.witness)
-        v2 = tm.equivalent(df.cols[c], T("floor", mk("add", total, const(0.5))), samplers=samplers, n=30, tol=1e-6,
-                           seed_tag=Q + label + c + "r")
+        v2 = tm.equivalent(df.cols[c], total, samplers=samplers, n=30, seed_tag=Q + label + c + "r", relation=tm.nearest_integer)
         ctx.count(1)
         if not v2:
             node = last_store(it, df, c) or fn
-            ctx.finding(Q, node, f"{label}: {c} must be the complete position rounded half-up to an integer (update_coordinates "
+            ctx.finding(Q, node, f"{label}: {c} must be the complete position rounded to the nearest integer (update_coordinates "
                         "on the result), leaving |shift| <= 0.5", node, m, witness=v2.witness)
 
 
